@@ -1,7 +1,7 @@
 """Shared TR-31 generators."""
 import string
 
-from core import Case, call_impl, enc, enc_b, enc_header, enc_s, enc_i, psec
+from core import build_header, Case, call_impl, enc, enc_b, enc_header, enc_s, enc_i, psec
 
 tr31 = psec.tr31
 ALNUM = string.ascii_letters + string.digits
@@ -56,12 +56,9 @@ def header_tuple(h):
 
 
 def clone_header(h):
-    g = tr31.Header()
-    g._version_id, g._key_usage, g._algorithm, g._mode_of_use, g._version_num, g._exportability, g._reserved = (
-        h._version_id, h._key_usage, h._algorithm, h._mode_of_use, h._version_num, h._exportability, h._reserved)
-    for k, v in h.blocks._blocks.items():
-        g.blocks._blocks[k] = v
-    return g
+    """an independent copy, made through the public interface"""
+    t = header_tuple(h)
+    return build_header(t[:7], t[7])
 
 
 def wrap_case(c, kbpk, h, key, mask, header_as_str=False):
